@@ -39,6 +39,25 @@ type Case struct {
 	Code     int    `json:"code,omitempty"`
 	E2E      bool   `json:"end_to_end"` // through Client.Login / GetServiceTicket over loopback sockets
 	Seed     uint64 `json:"seed"`
+	Client   string `json:"client,omitempty"` // the client principal, "" = alice; alice/admin has two components
+}
+
+// client is the client principal of the case's own world, components separated by "/".
+func (c Case) client() string {
+	if c.Client == "" {
+		return "alice"
+	}
+	return c.Client
+}
+
+// regrouped is the client's name with the same characters split into components differently: a two-component name
+// becomes one component holding a "/", a one-component name is cut in two.
+func (c Case) regrouped() der.M {
+	n := mint.Name(c.client())
+	if len(n) >= 2 {
+		return der.Name(1, strings.Join(n, "/"))
+	}
+	return der.Name(1, n[0][:2], n[0][2:])
 }
 
 const skewMs = 300000
@@ -64,9 +83,16 @@ var catalogue = []perturb{
 	{"nonce-1", "reject", "reject", func(c Case, x *kdc.ReplyCtx, p int64) { x.Enc["nonce"] = x.Enc["nonce"].(int64) - 1 }},
 	{"nonce-stale", "reject", "reject", func(c Case, x *kdc.ReplyCtx, p int64) { x.Enc["nonce"] = p }},
 	{"cname-other", "reject", "reject", func(c Case, x *kdc.ReplyCtx, p int64) { x.Rep["cname"] = otherName() }},
-	{"cname-extra-component", "reject", "reject", func(c Case, x *kdc.ReplyCtx, p int64) { x.Rep["cname"] = der.Name(1, "alice", "admin") }},
+	{"cname-extra-component", "reject", "reject", func(c Case, x *kdc.ReplyCtx, p int64) {
+		x.Rep["cname"] = der.Name(1, append(mint.Name(c.client()), "root")...)
+	}},
+	// the same characters grouped into components differently name another principal
+	{"cname-regrouped", "reject", "reject", func(c Case, x *kdc.ReplyCtx, p int64) { x.Rep["cname"] = c.regrouped() }},
 	{"crealm-other", "reject", "reject", func(c Case, x *kdc.ReplyCtx, p int64) { x.Rep["crealm"] = "EVIL.ORG" }},
 	{"enc-sname-other", "reject", "free", func(c Case, x *kdc.ReplyCtx, p int64) { x.Enc["sname"] = der.Name(2, "krbtgt", "EVIL.ORG") }},
+	{"enc-sname-regrouped", "reject", "free", func(c Case, x *kdc.ReplyCtx, p int64) {
+		x.Enc["sname"] = der.Name(2, strings.Join(der.NameStrings(x.Enc["sname"]), "/"))
+	}},
 	{"enc-srealm-other", "reject", "free", func(c Case, x *kdc.ReplyCtx, p int64) { x.Enc["srealm"] = "EVIL.ORG" }},
 	{"ticket-realm-other", "free", "free", func(c Case, x *kdc.ReplyCtx, p int64) { x.Ticket.Realm = "EVIL.ORG" }},
 	{"ticket-sname-other", "free", "free", func(c Case, x *kdc.ReplyCtx, p int64) { x.Ticket.SName = "host/other.example.com" }},
@@ -93,6 +119,24 @@ var catalogue = []perturb{
 	{"authtime-future-outside", "reject", "reject", func(c Case, x *kdc.ReplyCtx, p int64) {
 		shift(x.Enc, "authtime", (skewMs+margin)*time.Millisecond)
 		shift(x.Enc, "starttime", (skewMs+margin)*time.Millisecond)
+	}},
+	// centuries away from the client's clock (beyond what a 64-bit nanosecond duration can express)
+	{"authtime-year-2400", "reject", "reject", func(c Case, x *kdc.ReplyCtx, p int64) {
+		x.Enc["authtime"] = time.Date(2400, 2, 29, 12, 0, 0, 0, time.UTC)
+		x.Enc["starttime"] = time.Date(2400, 2, 29, 12, 0, 0, 0, time.UTC)
+	}},
+	{"authtime-year-9999", "reject", "reject", func(c Case, x *kdc.ReplyCtx, p int64) {
+		x.Enc["authtime"] = time.Date(9999, 12, 31, 23, 59, 59, 0, time.UTC)
+		x.Enc["starttime"] = time.Date(9999, 12, 31, 23, 59, 59, 0, time.UTC)
+		x.Enc["endtime"] = time.Date(9999, 12, 31, 23, 59, 59, 0, time.UTC)
+	}},
+	{"authtime-year-1700", "reject", "reject", func(c Case, x *kdc.ReplyCtx, p int64) {
+		x.Enc["authtime"] = time.Date(1700, 1, 1, 0, 0, 0, 0, time.UTC)
+		x.Enc["starttime"] = time.Date(1700, 1, 1, 0, 0, 0, 0, time.UTC)
+	}},
+	{"no-starttime-authtime-year-2400", "reject", "reject", func(c Case, x *kdc.ReplyCtx, p int64) {
+		delete(x.Enc, "starttime")
+		x.Enc["authtime"] = time.Date(2400, 2, 29, 12, 0, 0, 0, time.UTC)
 	}},
 	// RFC 4120: in a TGS reply authtime is that of the original login and may be old; starttime is current
 	{"authtime-old-starttime-now", "reject", "accept", func(c Case, x *kdc.ReplyCtx, p int64) {
@@ -243,7 +287,7 @@ func build(c Case, addrs []string) (*world, error) {
 	if c.EType == ref.AES128SHA2 || c.EType == ref.AES256SHA2 || c.EType == ref.AES128SHA1 || c.EType == ref.AES256SHA1 {
 		iter = 64 // keep string-to-key cheap; advertised through ETYPE-INFO2
 	}
-	pr := r.AddClient("alice", "pass-"+fmt.Sprint(c.Seed%1000), salt, iter)
+	pr := r.AddClient(c.client(), "pass-"+fmt.Sprint(c.Seed%1000), salt, iter)
 	r.AddService("HTTP/web.example.com")
 	lim := 1
 	extra := ""
@@ -262,13 +306,13 @@ func build(c Case, addrs []string) (*world, error) {
 	wd := &world{w: w, realm: r, cfg: cfg}
 	if c.Cred == "keytab" {
 		kt := keytab.New()
-		if err := kt.Unmarshal(mint.KeytabBytes([]mint.KeytabEntry{{Principal: "alice", Realm: "EXAMPLE.COM", KVNO: 1, Key: r.Key(pr, c.EType), Timestamp: 1000}})); err != nil {
+		if err := kt.Unmarshal(mint.KeytabBytes([]mint.KeytabEntry{{Principal: c.client(), Realm: "EXAMPLE.COM", KVNO: 1, Key: r.Key(pr, c.EType), Timestamp: 1000}})); err != nil {
 			return nil, err
 		}
 		wd.kt = kt
-		wd.creds = credentials.New("alice", "EXAMPLE.COM").WithKeytab(kt)
+		wd.creds = credentials.New(c.client(), "EXAMPLE.COM").WithKeytab(kt)
 	} else {
-		wd.creds = credentials.New("alice", "EXAMPLE.COM").WithPassword(pr.Password)
+		wd.creds = credentials.New(c.client(), "EXAMPLE.COM").WithPassword(pr.Password)
 	}
 	return wd, nil
 }
@@ -310,7 +354,7 @@ func Eval(c Case) evid.Verdict {
 		}
 		exp := Effect(c)
 		ctx := fmt.Sprintf("%s exchange, etype %d, %s credentials, salted=%v, addresses=%v, perturbation %q", c.Exchange, c.EType, c.Cred, c.Salted, c.Addrs, c.Perturb)
-		cname := types.PrincipalName{NameType: 1, NameString: []string{"alice"}}
+		cname := types.PrincipalName{NameType: 1, NameString: mint.Name(c.client())}
 		var prevNonce int64 = 424242
 		// AS exchange (always needed: the TGS exchange presents its TGT)
 		asReq, err := messages.NewASReqForTGT("EXAMPLE.COM", wd.cfg, cname)
@@ -498,9 +542,9 @@ func evalE2E(c Case) evid.Verdict {
 	var cl *client.Client
 	opts := []func(*client.Settings){client.DisablePAFXFAST(true), client.Logger(log.New(io.Discard, "", 0))}
 	if c.Cred == "keytab" {
-		cl = client.NewWithKeytab("alice", "EXAMPLE.COM", wd.kt, wd.cfg, opts...)
+		cl = client.NewWithKeytab(c.client(), "EXAMPLE.COM", wd.kt, wd.cfg, opts...)
 	} else {
-		cl = client.NewWithPassword("alice", "EXAMPLE.COM", wd.creds.Password(), wd.cfg, opts...)
+		cl = client.NewWithPassword(c.client(), "EXAMPLE.COM", wd.creds.Password(), wd.cfg, opts...)
 	}
 	defer cl.Destroy()
 	done := make(chan error, 1)
@@ -601,8 +645,9 @@ func TestProp(t *testing.T) {
 		if c.Cred == "keytab" {
 			c.Salted = false
 		}
+		c.Client = rapid.SampledFrom([]string{"", "alice/admin"}).Draw(t, "client")
 		if c.Exchange == "TGS" && rapid.IntRange(0, 9).Draw(t, "referral") == 0 {
-			c.Exchange, c.E2E, c.Addrs, c.Salted = "TGS-REF", true, false, false
+			c.Exchange, c.E2E, c.Addrs, c.Salted, c.Client = "TGS-REF", true, false, false, ""
 		}
 		count(r, c)
 		if r.Judge("reply", c, Eval(c)) {
@@ -621,7 +666,8 @@ func TestProp(t *testing.T) {
 						if r.Quick() && (k+int(r.Seed()))%3 != 0 {
 							continue
 						}
-						jobs = append(jobs, Case{Exchange: ex, EType: et, Cred: cred, Addrs: addrs, Perturb: p, Seed: r.Seed()*977 + uint64(k), Salted: cred == "password" && k%2 == 0})
+						jobs = append(jobs, Case{Exchange: ex, EType: et, Cred: cred, Addrs: addrs, Perturb: p, Seed: r.Seed()*977 + uint64(k), Salted: cred == "password" && k%2 == 0,
+							Client: []string{"", "alice/admin"}[(k/2)%2]})
 					}
 				}
 			}
@@ -638,7 +684,8 @@ func TestProp(t *testing.T) {
 	for pi, p := range names {
 		for ei, ex := range []string{"AS", "TGS"} {
 			if r.Thorough() || (pi+ei+int(r.Seed()))%3 == 0 {
-				jobs = append(jobs, Case{Exchange: ex, EType: ref.ETypes[(pi+ei)%6], Cred: []string{"password", "keytab"}[pi%2], Perturb: p, Seed: r.Seed()*53 + uint64(pi), E2E: true, Addrs: pi%3 == 0})
+				jobs = append(jobs, Case{Exchange: ex, EType: ref.ETypes[(pi+ei)%6], Cred: []string{"password", "keytab"}[pi%2], Perturb: p, Seed: r.Seed()*53 + uint64(pi), E2E: true, Addrs: pi%3 == 0,
+					Client: []string{"alice/admin", ""}[(pi/2)%2]})
 			}
 		}
 	}
